@@ -856,7 +856,7 @@ def run(ctx):
     spaces = ["neg3", "obj2", "pop2"] if ctx.quick else ["neg3", "obj2", "pop2", "neg4", "obj2w", "obj3", "tag2", "pop3"]
     # how many cases of each space are replayed: 1 / sample_mod of them (deterministic sample, see
     # TransferCases); 0 = none (the space only differs from another one in the model's pop order)
-    sample_mod = ctx.pick({"neg3": 37, "obj2": 47, "pop2": 0},
+    sample_mod = ctx.pick({"neg3": 47, "obj2": 61, "pop2": 0},
                           {"neg3": 2, "obj2": 3, "pop2": 0, "neg4": 11, "obj2w": 17, "obj3": 211, "tag2": 53, "pop3": 0})
     tex = cf.ThreadPoolExecutor(max_workers=8)
     cases_f, mc_f, nc_f = {}, {}, {}
